@@ -813,16 +813,22 @@ class QueryObjectDescriptor(SymbolicExpression[T], ABC):
         :param sources: The current bindings.
         :return: An Iterable of OperationResults for each combination of values.
         """
-        var_val_gen = {
-            var: var._evaluate__(copy(sources), parent=self)
-            for var in self.selected_variables
-        }
-        for sol in generate_combinations(var_val_gen):
-            var_val = {var._id_: sol[var][var._id_] for var in self.selected_variables}
-            self._is_false_ = self._is_false_ or any(
-                sol[var].is_false for var in self.selected_variables
-            )
-            yield OperationResult({**sources, **var_val}, self._is_false_, self)
+
+        def combine(index: int, bindings: Dict[int, HashedValue], is_false: bool):
+            # every selected variable is evaluated under the bindings of the ones before it, such that expressions
+            # over the same variable (e.g. [x, x.attribute]) take their values from the same assignment.
+            if index == len(self.selected_variables):
+                yield bindings, is_false
+                return
+            var = self.selected_variables[index]
+            for result in var._evaluate__(copy(bindings), parent=self):
+                yield from combine(
+                    index + 1, result.bindings, is_false or result.is_false
+                )
+
+        for bindings, is_false in combine(0, sources, False):
+            self._is_false_ = self._is_false_ or is_false
+            yield OperationResult(bindings, self._is_false_, self)
 
     @cached_property
     def _all_variable_instances_(self) -> List[Variable]:
@@ -1802,12 +1808,31 @@ class Exists(QuantifiedConditional):
     ) -> Iterable[OperationResult]:
         sources = sources or {}
         self._eval_parent_ = parent
-        seen_var_values = []
+        # Yield once per binding of the variables that are not quantified (the first witness found is kept).
+        seen_bindings = set()
         for val in self.condition._evaluate__(sources, parent=self):
-            var_val = val[self.variable._id_]
-            if val.is_true and var_val.value not in seen_var_values:
-                seen_var_values.append(var_val.value)
-                yield OperationResult(val.bindings, False, self)
+            if val.is_false:
+                continue
+            binding = tuple(
+                val[var_id].id_
+                for var_id in self.non_quantified_variable_ids
+                if var_id in val
+            )
+            if binding in seen_bindings:
+                continue
+            seen_bindings.add(binding)
+            yield OperationResult(val.bindings, False, self)
+
+    @cached_property
+    def non_quantified_variable_ids(self) -> List[int]:
+        """
+        :return: The ids of the variables of the condition other than the quantified variable.
+        """
+        return [
+            v.id_
+            for v in self.condition._unique_variables_
+            if v.value is not self.variable
+        ]
 
     def _invert_(self):
         return ForAll(self.variable, self.condition._invert_())
